@@ -151,6 +151,7 @@ type ChanObj struct {
 	Cap     int
 	Closed  bool
 	Handoff int // values placed beyond Cap for a parked receiver (rendezvous)
+	ReadyAt *Term // time.After channels: the instant the buffered value becomes available (deterministic clock)
 }
 
 // ---------------------------------------------------------------- helpers
@@ -595,11 +596,18 @@ func (e *Engine) mergeVal(g *Term, a, b Value) (Value, bool) {
 		if !ok || x.Closed != y.Closed || x.Cap != y.Cap || len(x.Buf) != len(y.Buf) || x.Handoff != y.Handoff {
 			return nil, false
 		}
+		if (x.ReadyAt == nil) != (y.ReadyAt == nil) {
+			return nil, false
+		}
 		out, ok := e.mergeVals(g, x.Buf, y.Buf)
 		if !ok {
 			return nil, false
 		}
-		return &ChanObj{Buf: out, Cap: x.Cap, Closed: x.Closed, Handoff: x.Handoff}, true
+		n := &ChanObj{Buf: out, Cap: x.Cap, Closed: x.Closed, Handoff: x.Handoff}
+		if x.ReadyAt != nil {
+			n.ReadyAt = e.tc.Ite(g, x.ReadyAt, y.ReadyAt)
+		}
+		return n, true
 	}
 	return nil, false
 }
